@@ -303,7 +303,35 @@ def check_ownership(p: Project, r: Result):
 
 
 # -------------------------------------------------------------------------------------------- O6, O7
+def check_store_ctor(p: Project, r: Result):
+    """O6 (store side): every store __init__ hands its own `capacity` parameter unmodified to the base constructor."""
+    for s in tables.discover_stores(p):
+        for ci in p.mro(s.ci.key):
+            init = ci.methods.get('__init__')
+            if init is None:
+                continue
+            key = f'{init.key}::capacity-to-base'
+            params = [a.arg for a in init.node.args.args]
+            sup = None
+            for n in walk_no_nested(init.node):
+                if isinstance(n, ast.Call) and isinstance(n.func, ast.Attribute) and n.func.attr == '__init__' \
+                        and isinstance(n.func.value, ast.Call) and ast.unparse(n.func.value.func) == 'super':
+                    sup = n
+            if sup is None or 'capacity' not in params:
+                r.fail('C01.O6', key, 'store constructor does not forward a capacity parameter to its base class', src(ci.module), init.node.lineno)
+                continue
+            arg = sup.args[1] if len(sup.args) > 1 else next((k.value for k in sup.keywords if k.arg == 'capacity'), None)
+            reassigned = [n for n in walk_no_nested(init.node) if isinstance(n, (ast.Assign, ast.AugAssign)) and n.lineno < sup.lineno
+                          and any(isinstance(t, ast.Name) and t.id == 'capacity' for t in (n.targets if isinstance(n, ast.Assign) else [n.target]))]
+            if arg is not None and ast.unparse(arg) == 'capacity' and not reassigned:
+                r.ok('C01.O6', key, 'super().__init__(env, capacity)', src(ci.module), sup.lineno)
+            else:
+                r.fail('C01.O6', key, f'the base store is built with capacity `{ast.unparse(arg) if arg is not None else "(default)"}`, not with the capacity the '
+                                      f'caller asked for', src(ci.module), sup.lineno)
+
+
 def check_edges(p: Project, r: Result):
+    check_store_ctor(p, r)
     base = tables.find_base(p, 'Edge', 'edges/edge.py')
     init = base.methods.get('__init__')
     if init is None:
